@@ -218,9 +218,10 @@ fn store_data(caller: &Pubkey, sit: RoleSit) -> Vec<u8> {
     g9rt::zero_copy_data(&s)
 }
 
-fn make_header(owner: Pubkey, rent_receiver: Pubkey, store: Pubkey, state: u8, max_exec: u64) -> ActionHeader {
+fn make_header(owner: Pubkey, receiver: Pubkey, rent_receiver: Pubkey, store: Pubkey, state: u8, max_exec: u64) -> ActionHeader {
     let mut h = ActionHeader::default();
-    hk::action_header_init(&mut h, 7, store, g9rt::key(50), owner, owner, [9u8; 32], 254, max_exec, false).unwrap();
+    // `receiver` (who gets the output tokens) is a header field of its own; it gives no right to close
+    hk::action_header_init(&mut h, 7, store, g9rt::key(50), owner, receiver, [9u8; 32], 254, max_exec, false).unwrap();
     hk::action_header_set_rent_receiver(&mut h, rent_receiver);
     bytemuck::bytes_of_mut(&mut h)[1] = state;
     h
@@ -236,7 +237,7 @@ fn action_data<T: bytemuck::Pod + Discriminator>(h: &ActionHeader) -> Vec<u8> {
 }
 
 /// Real `Close::preprocess` on a hand-built `CloseDeposit`.
-fn real_preprocess_deposit(caller: Pubkey, owner: Pubkey, sit: RoleSit, state: u8) -> std::result::Result<bool, u32> {
+fn real_preprocess_deposit(caller: Pubkey, owner: Pubkey, receiver: Pubkey, sit: RoleSit, state: u8) -> std::result::Result<bool, u32> {
     let sid = gmsol_store::ID;
     let sys = anchor_lang::system_program::ID;
     let tok = spl_token::ID;
@@ -245,12 +246,12 @@ fn real_preprocess_deposit(caller: Pubkey, owner: Pubkey, sit: RoleSit, state: u
     let store_key = g9rt::key(10);
     let deposit_key = g9rt::key(11);
     let mt_key = g9rt::key(12);
-    let h = make_header(owner, owner, store_key, state, 1000);
+    let h = make_header(owner, receiver, owner, store_key, state, 1000);
     let i_exec = ar.add(caller, sys, 1_000_000, &[], true, false, false);
     let i_store = ar.add(store_key, sid, 1_000_000, &store_data(&caller, sit), false, false, false);
     let i_wallet = ar.add(g9rt::key(13), sys, 0, &[], false, true, false);
     let i_owner = ar.add(owner, sys, 0, &[], false, true, false);
-    let i_recv = ar.add(g9rt::key(14), sys, 0, &[], false, true, false);
+    let i_recv = if receiver == owner { i_owner } else { ar.add(receiver, sys, 0, &[], false, true, false) };
     let i_mt = ar.add(mt_key, tok, 1_000_000, &mint_data(9), false, false, false);
     let i_dep = ar.add(deposit_key, sid, 5_000_000, &action_data::<Deposit>(&h), false, true, false);
     let i_esc = ar.add(g9rt::key(15), tok, 2_000_000, &token_account_data(mt_key, deposit_key, 0), false, true, false);
@@ -290,14 +291,14 @@ fn real_preprocess_deposit(caller: Pubkey, owner: Pubkey, sit: RoleSit, state: u
 }
 
 /// Real `Close::preprocess` on a hand-built `CloseGlvShift` (owner = the GLV, funder = rent receiver).
-fn real_preprocess_glv_shift(caller: Pubkey, glv: Pubkey, funder: Pubkey, sit: RoleSit, state: u8) -> std::result::Result<bool, u32> {
+fn real_preprocess_glv_shift(caller: Pubkey, glv: Pubkey, receiver: Pubkey, funder: Pubkey, sit: RoleSit, state: u8) -> std::result::Result<bool, u32> {
     let sid = gmsol_store::ID;
     let sys = anchor_lang::system_program::ID;
     let tok = spl_token::ID;
     let mut ar = Arena::new();
     let mut rf = Refs::new();
     let store_key = g9rt::key(10);
-    let h = make_header(glv, funder, store_key, state, 0);
+    let h = make_header(glv, receiver, funder, store_key, state, 0);
     let glv_state: Glv = bytemuck::Zeroable::zeroed();
     let i_auth = ar.add(caller, sys, 1_000_000, &[], true, true, false);
     let i_funder = ar.add(funder, sys, 0, &[], false, true, false);
@@ -333,11 +334,18 @@ fn real_preprocess_glv_shift(caller: Pubkey, glv: Pubkey, funder: Pubkey, sit: R
     r
 }
 
+/// The receiver recorded in the header of an action of `owner`: a different address (owner + 50) for two owners out
+/// of three, the owner itself otherwise (the default of the create instructions).
+fn receiver_of(owner: u64) -> u64 {
+    if owner % 3 == 2 { owner } else { owner + 50 }
+}
+
 fn real_preprocess(kind: u64, caller: u64, owner: u64, funder: u64, sit: RoleSit, state: u8) -> std::result::Result<bool, u32> {
+    let receiver = g9rt::key(receiver_of(owner));
     let r = if kind == 6 {
-        real_preprocess_glv_shift(g9rt::key(caller), g9rt::key(owner), g9rt::key(funder), sit, state)
+        real_preprocess_glv_shift(g9rt::key(caller), g9rt::key(owner), receiver, g9rt::key(funder), sit, state)
     } else {
-        real_preprocess_deposit(g9rt::key(caller), g9rt::key(owner), sit, state)
+        real_preprocess_deposit(g9rt::key(caller), g9rt::key(owner), receiver, sit, state)
     };
     // canonicalisation: inside preprocess, PreconditionsAreNotMet can only come from the role table
     // (`enabled_role_index` of a disabled role); it is reported as "denied" like PermissionDenied / NotFound
@@ -355,10 +363,12 @@ fn gen_preproc(rng: &mut Rng) {
     let kind = if rng.chance(1, 2) { 6 } else { rng.below(6) };
     let owner = 100 + rng.below(3);
     let funder = if kind == 6 { 200 + rng.below(2) } else { owner };
-    let caller = match rng.below(5) {
+    // signers: the owner, the header's receiver (no close right of its own), the funder, keepers, strangers
+    let caller = match rng.below(7) {
         0 | 1 => owner,
-        2 => funder,
-        3 => 200 + rng.below(2),
+        2 | 3 => receiver_of(owner),
+        4 => funder,
+        5 => 200 + rng.below(2),
         _ => 300 + rng.below(3),
     };
     let want_role = rng.chance(3, 5);
@@ -389,7 +399,7 @@ impl Action for Hdr {
 
 /// real execution_lamports + PayExecutionFeeOperation; returns (payer_after, receiver_gain)
 fn real_pay_fee(lamports: u64, data_len: usize, max_exec: u64, fee: u64) -> (u64, std::result::Result<(u64, u64), u32>) {
-    let h = Hdr(make_header(g9rt::key(100), g9rt::key(100), g9rt::key(10), 0, max_exec));
+    let h = Hdr(make_header(g9rt::key(100), g9rt::key(150), g9rt::key(100), g9rt::key(10), 0, max_exec));
     let x = h.execution_lamports(fee);
     let mut ar = Arena::new();
     let i_p = ar.add(g9rt::key(30), gmsol_store::ID, lamports, &vec![0u8; data_len], false, true, false);
@@ -472,7 +482,7 @@ fn gen_hist(rng: &mut Rng) {
                 let data_len = *rng.pick(&[800usize, 1200]);
                 let mb = (128 + data_len as u64) * 6960;
                 let eff_funder = if kind == 6 { funder } else { owner };
-                let hdr = make_header(g9rt::key(owner), g9rt::key(eff_funder), g9rt::key(10), 0, exec);
+                let hdr = make_header(g9rt::key(owner), g9rt::key(receiver_of(owner)), g9rt::key(eff_funder), g9rt::key(10), 0, exec);
                 // the real header must start Pending
                 assert!(hdr.action_state().unwrap().is_pending());
                 let a = Act { open: true, kind, hdr, owner, funder: eff_funder, in1, in2, esc1: in1, esc2: in2, esc_out: 0,
@@ -534,7 +544,7 @@ fn gen_hist(rng: &mut Rng) {
                 // Close
                 let id = pick_id(rng, &w);
                 let (owner, funder, kind) = w.acts.get(id as usize).map(|a| (a.owner, a.funder, a.kind)).unwrap_or((100, 200, 0));
-                let caller = match rng.below(6) { 0 | 1 => owner, 2 => funder, 3 => 200 + rng.below(2), _ => 300 + rng.below(2) };
+                let caller = match rng.below(8) { 0 | 1 => owner, 2 | 3 => receiver_of(owner), 4 => funder, 5 => 200 + rng.below(2), _ => 300 + rng.below(2) };
                 let want_role = if caller >= 300 { rng.chance(1, 6) } else if caller >= 200 { rng.chance(5, 6) } else { rng.chance(1, 4) };
                 let sit = RoleSit::pick(rng, want_role);
                 let ce = rng.chance(9, 10);
